@@ -144,3 +144,16 @@ Example C16_nonvacuous :
      [Data (Some 6%N)]]%N /\
   strictly_accepted (judge minit sinit (snd (run init ops))) = true.
 Proof. vm_compute. split; reflexivity. Qed.
+
+(* Rapid restarts (operation Burst: k StartHeartbeat calls with nobody parked in between, then n refreshes of
+   whatever runs): the sequential composition of k starts leaves exactly one stream, the last one; the k-1
+   earlier streams exit at their next tick; the schedule theorem above covers Burst for every k, n and state. *)
+Example C16_burst_trace :
+  let ops := [Setup 100; Sub; Call 0 CAddFn; Resume 0; Burst 0 3 4; Tick 0; Tick 2; Tick 3; Call 1 CStop; Resume 1;
+              Tick 3; Read; Burst 1 2 2; Call 0 CIsRunning] in
+  map snd (snd (run init ops)) =
+    [[Ready]; [SubR true]; [Refreshed 1 1 true 100; Parked 2]; [Started 0; Done];
+     [Bursted 3 1 false 5 4 true]; [Exited]; [Exited]; [Refreshed 6 1 true 100]; [Parked 1]; [Done];
+     [Exited]; [Data (Some 6%N)]; [Bursted 5 1 false 8 2 true]; [RetB true]]%N /\
+  strictly_accepted (judge minit sinit (snd (run init ops))) = true.
+Proof. vm_compute. split; reflexivity. Qed.
